@@ -26,7 +26,8 @@ def r1(ctx):
     R = "C19-R1"
     ctx.rule(R, "who-may-mutate Net::rules: IndexMap::insert in Net::install_rule with an id from the increasing counter next_rule_id; "
                 "IndexMap::shift_remove in Net::uninstall_rule; iteration by values_mut in Net::evaluate; everything else is a violation")
-    allowed = {("turmoil_net::Net::install_rule", "insert"), ("turmoil_net::Net::uninstall_rule", "shift_remove"), ("turmoil_net::Net::evaluate", "values_mut")}
+    allowed = {("turmoil_net::Net::install_rule", "insert"), ("turmoil_net::Net::uninstall_rule", "shift_remove"), ("turmoil_net::uninstall_rule", "shift_remove"),
+               ("turmoil_net::Net::evaluate", "values_mut")}
     ro = re.compile(r"::(len|is_empty|iter|values|keys|get|contains_key|new|default)$")
     n = 0
     for b in sorted(ctx.w.bodies.values(), key=lambda b: b.id):
@@ -36,10 +37,13 @@ def r1(ctx):
             if not t["args"] or not _on_field(b, t["args"][0], RULES) or ro.search(t["f"]):
                 continue
             m = t["f"].rsplit("::", 1)[1]
-            ok = (b.id, m) in allowed
+            rootb = b
+            while rootb.parent and rootb.parent in ctx.w.bodies:
+                rootb = ctx.w.bodies[rootb.parent]
+            ok = (rootb.id, m) in allowed
             n += 1
-            ctx.inst(R, f"{b.id}:{m}", ok, t["s"], f"{m} on the rule chain" if ok else
-                     f"`{t['f']}` on Net::rules in `{b.id}`: the chain is no longer kept in installation order (first-match decides by a different rule)")
+            ctx.inst(R, f"{rootb.id}:{m}", ok, t["s"], f"{m} on the rule chain" if ok else
+                     f"`{t['f']}` on Net::rules in `{rootb.id}`: the chain is no longer kept in installation order (first-match decides by a different rule)")
     ins = ctx.body(R, "turmoil_net::Net::install_rule")
     if ins:
         idw = [s for bb, i, s in ins.all_stmts() if place_last_field(s["p"]) == "turmoil_net::Net::next_rule_id"]
@@ -66,7 +70,51 @@ def r2(ctx):
              f"chain is not walked plainly front to back (adapters: {adapters})")
     nx = [bb for bb, t in b.calls(re.compile(r"indexmap::map::ValuesMut as std::iter::Iterator>::next$"))]
     ves = [v for v in variant_edges(b, lambda p: True) if v[3] == "turmoil_net::rule::Verdict"]
-    if not ves or not nx:
+    lazy = list(b.calls(re.compile(r"Iterator>::find$|^std::iter::Iterator::find$|Iterator>::find_map$")))
+    if (not ves or not nx) and lazy:
+        # accepted idiom: rules.values_mut().map(|r| r.on_packet(pkt)).find(|v| !matches!(v, Pass)).unwrap_or(Pass) - lazy, stops at the first hit
+        okf = False
+        for bb, t in lazy:
+            for cid in closure_args(b, t):
+                cb = ctx.w.bodies.get(cid)
+                if not cb:
+                    continue
+                for sbb, m, els, adt, pl in variant_edges(cb, lambda p: True):
+                    if adt == "turmoil_net::rule::Verdict" and "Pass" in m:
+                        # Pass -> false, anything else -> true
+                        def consts_on(edge):
+                            out = {}
+                            for x in cb.reachable(edge[1]):
+                                if not cb.dominated_by_edge(x, edge):
+                                    continue
+                                for s2 in cb.stmts(x):
+                                    c = op_const(s2["r"].get("o")) if s2["r"]["k"] == "use" else None
+                                    if c is not None and "v" in c and not s2["p"].get("p"):
+                                        out[s2["p"]["l"]] = c["v"]
+                            return out
+                        cp, co = consts_on(m["Pass"]), consts_on(els)
+                        # polarity of _0 w.r.t. the flag local
+                        pol = None
+                        flag = None
+                        for l in set(cp) & set(co):
+                            if l == 0:
+                                flag, pol = 0, 1
+                            else:
+                                for bb2, i2, s2 in cb.defs().get(0, []):
+                                    if i2 != "term" and s2["r"]["k"] == "un" and s2["r"]["op"] == "Not" and op_base(s2["r"]["a"]) == l:
+                                        flag, pol = l, -1
+                                    if i2 != "term" and s2["r"]["k"] == "use" and op_base(s2["r"]["o"]) == l:
+                                        flag, pol = l, 1
+                        if flag is not None:
+                            vp = cp[flag] if pol == 1 else 1 - cp[flag]
+                            vo = co[flag] if pol == 1 else 1 - co[flag]
+                            okf = vp == 0 and vo == 1
+        uo = [t for bb, t in b.calls(re.compile(r"^std::option::Option::unwrap_or$"))]
+        okd = any(origin(b, t["args"][1]).get("k") == "agg" and origin(b, t["args"][1])["r"].get("variant") == "Pass" for t in uo)
+        onp = any(True for fb in ctx.w.family(b.id) for _ in fb.calls(re.compile(r"Rule>::on_packet$|Rule::on_packet$")))
+        ctx.inst(R, "evaluate:first-non-pass", okf and onp, b.span, "lazy search for the first verdict other than Pass" if okf and onp else "the iterator chain does not stop at the first non-Pass verdict")
+        ctx.inst(R, "evaluate:default-pass", okd, b.span, "no rule / all Pass yields Verdict::Pass" if okd else "exhausting the chain does not yield Verdict::Pass")
+    elif not ves or not nx:
         ctx.bad(R, "evaluate:first-non-pass", b.span, "no match on the rule's Verdict inside the loop")
     else:
         sbb, m, els, adt, pl = ves[0]
@@ -225,7 +273,8 @@ def r5(ctx):
         ctx.inst(R, "guard-drop", ok and okid, db.span, "dropping the guard uninstalls its rule" if ok and okid else "Drop for RuleGuard does not always uninstall its own rule id")
     u = ctx.body(R, "turmoil_net::uninstall_rule")
     if u:
-        ok = bool(may_call(ctx.w, [u.id], "turmoil_net::Net::uninstall_rule"))
+        ok = bool(may_call(ctx.w, [u.id], "turmoil_net::Net::uninstall_rule")) or \
+            any(_on_field(fb, t["args"][0], RULES) for fb in ctx.w.family(u.id) for bb, t in fb.calls(re.compile(r"^indexmap::IndexMap::shift_remove$")) if t["args"])
         ctx.inst(R, "uninstall-reaches-net", ok, u.span, "free uninstall_rule reaches Net::uninstall_rule" if ok else "uninstall_rule no longer reaches Net::uninstall_rule")
     fg = [b.id for b, bb, t in who_calls(ctx.w, re.compile(r"^std::mem::forget$")) if b.crate == "turmoil_net" and "RuleGuard" in "".join(b.tys[a]["s"] for a in t.get("at", ()))]
     ctx.inst(R, "forget-only-in-forget", set(fg) <= {"turmoil_net::rule::RuleGuard::forget"}, "", f"mem::forget(RuleGuard) in {sorted(set(fg))}")
